@@ -18,7 +18,7 @@ def sh(cmd, **kw):
 
 def build_demo(src, out):
     libs = ' '.join(f'{VAL}/_build/libAIToolbox{x}.a' for x in ('FMDP', 'POMDP', 'MDP'))
-    return sh(f'g++ -std=c++20 -O1 -I{VAL}/include -I/usr/include/eigen3 {src} {libs} /usr/lib/liblpsolve55.a -lcolamd -ldl -o {out}')
+    return sh(f'g++ -std=c++20 ' + os.environ.get('DEMO_OPT', '-O1') + f' -I{VAL}/include -I/usr/include/eigen3 {src} {libs} /usr/lib/liblpsolve55.a -lcolamd -ldl -o {out}')
 
 
 def main():
